@@ -160,6 +160,16 @@ def run(chk):
         for c in sorted([x for x in ast.walk(f.node) if isinstance(x, ast.Call) and (dotted(x.func) or "").startswith("self.")], key=lambda x: (x.lineno, x.col_offset)):
             got.append((dotted(c.func)[5:], [src(a) for a in c.args]))
         chk.check(got == exp, "R3", f"{L}:LssMaster.{name} | specifier and arguments", f.loc(), f"calls {got}; expected {exp}")
+        # every call of the service puts its request on the bus: no exit (a remembered answer, a range check of a value the slave is
+        # entitled to judge itself) lies in front of the delegate call
+        if exp:
+            first = min((c.lineno for c in ast.walk(f.node) if isinstance(c, ast.Call) and (dotted(c.func) or "") == "self." + exp[0][0]), default=None)
+            for x in own_nodes(f.node):
+                if isinstance(x, (ast.Return, ast.Raise)) and first is not None and x.lineno < first:
+                    what = "returns" if isinstance(x, ast.Return) else "raises"
+                    chk.bad("R3", f"{L}:LssMaster.{name} | the request is sent on every call", f.loc(x),
+                            f"`{src(x)[:60]}` {what} before {exp[0][0]}() is reached: for some arguments / histories no request frame is sent and the answer does not come from the "
+                            f"slave that is selected now (CiA 305 lets the slave judge the value: node id 255 un-configures, 0 and 128..254 are answered with an error code)")
         # what is handed on is what the caller gave: the parameters are not re-bound on the way
         from ..facts import assigned_targets
         for st_ in own_nodes(f.node):
